@@ -957,11 +957,9 @@ func (c *evalCtx) eval(t *Term) uint64 {
 	a := func(i int) uint64 { return c.eval(t.Args[i]) }
 	switch t.Op {
 	case OVar:
-		v, ok := c.m[t.Name]
-		if !ok {
-			c.miss = true
-		}
-		r = v
+		// a variable absent from the model was not mentioned by any asserted
+		// constraint when the model was taken: any value (0) extends the model
+		r = c.m[t.Name]
 	case ONot:
 		r = 1 - a(0)
 	case OAnd:
